@@ -32,6 +32,10 @@ CLAIMED = {
          "Shows on all paths that a time the event carries is never replaced by a fallback (stores of the extracted time only where non-zero, fallbacks only where the extraction or the current time is zero), that the OTLP log handler takes the event time from the record, that no metrics datapoint timestamp derives from a current-time source, that per-item attributes are not carried from one OTLP resource to the next, and that every protocol handler parses with the configured timestamp key. Attribute completeness and timestamp unit/spelling recognition are not decided."),
  "C13": ("§3 C13", "static analysis: control-dependence GUARD of every org-tagged enumeration on the comparison with the caller's organisation, key-origin check of per-organisation maps, backward slices of the org argument of segment selection, path rule tying alias-file changes to the in-memory alias table, KEYSEP lint of the key-building functions",
          "Finds every function that takes an organisation id and loops over elements carrying an organisation field and shows that a comparison of the two exists and governs every data-carrying effect of the loop; shows per-organisation maps are keyed by the organisation parameter, that segment selection never receives a constant organisation, that alias changes reach the in-memory table on every success path, and that stream ids / segment keys cannot collide across (index, organisation) pairs by unseparated concatenation. Wildcard/alias expansion semantics and tenant-blind deletes by index name are not decided."),
+ "C02": ("§3 C02", "static analysis: syntax-to-formula reduction of pure comparison predicates and exhaustive truth-table comparison with their specification over all weak orderings of the operands (canonical-form comparison, no execution), enum exhaustiveness, loop-exit analysis of the dictionary scans",
+         "Every arm of the numeric record comparison (3 representations x 6 operators), the time-range membership/overlap predicates and the block range-index pruning tables are compared with their mathematical meaning on every ordering of their operands, which is complete because these predicates touch their operands only through comparisons; the dictionary-block search is shown to examine every word. Literal typing, wildcard translation, boolean composition and where-stage agreement are not decided."),
+ "C03": ("§3 C03", "static analysis: truth-table soundness check of range-index pruning over all orderings, truth-table implication check of the fast-path gate formulas over all valuations, backward slice of the gate's enclosure argument, dominance ORDER of the rotation hand-over",
+         "Shows that block pruning accepts every block that can contain a match for each operator (also after refactoring into a generic helper), that full-enclosure means what its name says, that the SST and agile-tree fast paths can only be chosen for match-all queries over fully enclosed segments without non-ingest statistics, and that hand-over between open and rotated segments keeps every segment visible. Equality of results across layouts, bloom/PQMR contents and parallel merge are not decided."),
 }
 
 NOT_APPLICABLE = {
